@@ -7,6 +7,7 @@ C08 — Sidecar validation is total and flags each structural fault.
 for the model (`total`).  The remaining theorems are about `validateP`.
 -/
 import HedVerif.Model.SidecarV
+import HedVerif.Props.C09
 namespace HedVerif.C08
 open HedVerif.SidecarV HedVerif.Generated
 
@@ -123,7 +124,9 @@ theorem good_basic (e : Json) : Good e (detectP true e) := by
 /-! ## validate_structure -/
 
 theorem mk_isError (k : Kind) (col key : Option Str) : (mk k col key).isError = true := by
-  cases k <;> rfl
+  cases k with
+  | defn i => cases i <;> rfl
+  | _ => rfl
 
 /-- `_validate_column_structure` without the `Except` steps -/
 def columnStructureP (ne : Str × Json) : List Issue :=
@@ -772,22 +775,23 @@ structure EntryOK (O : Oracle) (cols : List (Str × Json)) (n : Str) (e : Json) 
   /-- `HED` is not used as a column name -/
   name : reservedColumn n = false
   /-- no HED at all (and no `HED` key below), or a value string with exactly one `#`, or a non-empty map of non-empty
-  strings without `#` whose keys are not `n/a` -/
+  strings without `#` whose keys are not `n/a`; the `#` rule does not apply to an entry that declares definitions -/
   shape : (detectP false e = some .ignore ∧ hasKey HED e = false)
-    ∨ (∃ kvs s, e = .obj kvs ∧ lookup HED kvs = some (.str s) ∧ countHash s ≠ 0 ∧ treeHash O s = 1)
+    ∨ (∃ kvs s, e = .obj kvs ∧ lookup HED kvs = some (.str s) ∧ countHash s ≠ 0 ∧ (O.defCount s = 0 → treeHash O s = 1))
     ∨ (∃ kvs vs, e = .obj kvs ∧ lookup HED kvs = some (.obj vs) ∧ vs ≠ [] ∧
-        ∀ kv ∈ vs, ∃ s, kv.2 = .str s ∧ s ≠ [] ∧ reservedCategory kv.1 = false ∧ treeHash O s = 0)
+        ∀ kv ∈ vs, ∃ s, kv.2 = .str s ∧ s ≠ [] ∧ reservedCategory kv.1 = false ∧ (O.defCount s = 0 → treeHash O s = 0))
   /-- braces are balanced; references name `HED` or a column that bears HED, not the column itself, and the column
   referred to contains no reference -/
   refs : ∀ ks ∈ screened e, braces ks.2 = [] ∧ ∀ r ∈ findRefs ks.2,
     (r = HED ∨ ∃ e', (r, e') ∈ cols ∧ detectP true e' ≠ some .ignore) ∧ r ≠ n ∧
     ∀ e', (r, e') ∈ cols → ∀ ks' ∈ screened e', findRefs ks'.2 = []
 
-/-- The string layer finds no error: in the entries of the sidecar (which contain no definitions), in any assembled
-string it is asked about, and among the definition issues. -/
+/-- The string layer finds no error: in the entries of the sidecar, in any assembled string it is asked about, and among
+the definition issues; a column declares definitions in all of its entries or in none. -/
 structure OracleOK (O : Oracle) (cols : List (Str × Json)) : Prop where
-  basic : ∀ ne ∈ cols, ∀ ks ∈ stringsP ne.2 (detectP false ne.2),
-    (∀ c ∈ O.basic ks.2, C08.sevWarning ≤ c.2) ∧ O.defCount ks.2 = 0
+  basic : ∀ ne ∈ cols, ∀ ks ∈ stringsP ne.2 (detectP false ne.2), ∀ c ∈ O.basic ks.2, C08.sevWarning ≤ c.2
+  uniform : ∀ ne ∈ cols, (∀ ks ∈ stringsP ne.2 (detectP false ne.2), O.defCount ks.2 = 0) ∨
+    (∀ ks ∈ stringsP ne.2 (detectP false ne.2), O.defCount ks.2 ≠ 0)
   full : ∀ t, ∀ c ∈ O.full t, C08.sevWarning ≤ c.2
   defs : ∀ i ∈ O.defIssues, i.isError = false
 
@@ -920,24 +924,29 @@ theorem wellformed_ok (O : Oracle) (cols : List (Str × Json)) (hwf : ∀ ne ∈
     have hb := hO.basic ne hne
     simp only [columnIssuesP, List.mem_append, List.mem_flatMap, List.mem_map] at hi
     rcases hi with ⟨_, ⟨ks, hks, rfl⟩, hi⟩ | hi
-    · obtain ⟨hbs, hdc⟩ := hb ks hks
-      simp only [entryIssuesP, hdc, beq_self_eq_true, ↓reduceIte, List.mem_append, List.mem_map] at hi
+    · have hbs := hb ks hks
+      simp only [entryIssuesP, List.mem_append, List.mem_map] at hi
       rcases hi with (⟨c, hc, rfl⟩ | hi) | hi
       · exact ext_isError _ _ _ (hbs c hc)
       · exfalso
+        by_cases hdc : O.defCount ks.2 = 0
+        case neg =>
+          have : (O.defCount ks.2 == 0) = false := by simpa using hdc
+          simp [this] at hi
+        simp only [hdc, beq_self_eq_true, ↓reduceIte] at hi
         rcases hw.shape with ⟨hig, _⟩ | ⟨kvs, s, he, hl, hcnt⟩ | ⟨kvs, vs, he, hl, _, hall⟩
         · rw [strings_of_ignore _ _ hig] at hks; cases hks
         · rw [he] at hks hi
           simp only [detectP, hl, stringsP, Bool.false_and, Bool.false_eq_true, ↓reduceIte, List.mem_singleton] at hks hi
           subst hks
-          simp [poundCountP, hcnt] at hi
+          simp [poundCountP, hcnt.2 hdc] at hi
         · rw [he] at hks hi
           simp only [detectP, hl, stringsP, Bool.false_and, Bool.false_eq_true, ↓reduceIte, List.mem_filterMap] at hks hi
           obtain ⟨kv, hkv, hso⟩ := hks
           obtain ⟨s, hs, _, _, hcnt⟩ := hall kv hkv
           simp only [strOf, hs, Option.some.injEq] at hso
           subst hso
-          simp [poundCountP, hcnt] at hi
+          simp [poundCountP, hcnt hdc] at hi
       · split at hi
         · cases hi
         · simp only [fullIssuesP] at hi
@@ -967,24 +976,30 @@ theorem wellformed_ok (O : Oracle) (cols : List (Str × Json)) (hwf : ∀ ne ∈
           obtain ⟨combo, _, c, hc, rfl⟩ := hi
           exact ext_isError _ _ _ (hO.full _ c hc)
     · exfalso
-      have hz : ∀ d ∈ List.map (fun x : Nat × List Issue => x.1)
-          (List.map (fun ks : Str × Str => entryIssuesP O (refsStringsP (colsP cols))
-            ((columnRefsP (colsP cols)).contains ne.1) (detectP false ne.2) ne.1
-            (keyCtx (stringsP ne.2 (detectP false ne.2)) ks.1) ks.2) (stringsP ne.2 (detectP false ne.2))), d = 0 := by
-        intro d hd
-        simp only [List.map_map, List.mem_map, Function.comp] at hd
-        obtain ⟨ks, hks, rfl⟩ := hd
-        exact (hb ks hks).2
       unfold badSpot at hi
-      have hany : (List.map (fun x : Nat × List Issue => x.1)
-          (List.map (fun ks : Str × Str => entryIssuesP O (refsStringsP (colsP cols))
-            ((columnRefsP (colsP cols)).contains ne.1) (detectP false ne.2) ne.1
-            (keyCtx (stringsP ne.2 (detectP false ne.2)) ks.1) ks.2) (stringsP ne.2 (detectP false ne.2)))).any (· > 0) = false := by
-        rw [List.any_eq_false]
-        intro d hd
-        simp [hz d hd]
-      rw [hany] at hi
-      simp at hi
+      rcases hO.uniform ne hne with hz | hnz
+      · have hany : (List.map (fun x : Nat × List Issue => x.1)
+            (List.map (fun ks : Str × Str => entryIssuesP O (refsStringsP (colsP cols))
+              ((columnRefsP (colsP cols)).contains ne.1) (detectP false ne.2) ne.1
+              (keyCtx (stringsP ne.2 (detectP false ne.2)) ks.1) ks.2) (stringsP ne.2 (detectP false ne.2)))).any (· > 0) = false := by
+          rw [List.any_eq_false]
+          intro d hd
+          simp only [List.map_map, List.mem_map, Function.comp] at hd
+          obtain ⟨ks, hks, rfl⟩ := hd
+          simp [entryIssuesP, hz ks hks]
+        rw [hany] at hi
+        simp at hi
+      · have hany : (List.map (fun x : Nat × List Issue => x.1)
+            (List.map (fun ks : Str × Str => entryIssuesP O (refsStringsP (colsP cols))
+              ((columnRefsP (colsP cols)).contains ne.1) (detectP false ne.2) ne.1
+              (keyCtx (stringsP ne.2 (detectP false ne.2)) ks.1) ks.2) (stringsP ne.2 (detectP false ne.2)))).any (· == 0) = false := by
+          rw [List.any_eq_false]
+          intro d hd
+          simp only [List.map_map, List.mem_map, Function.comp] at hd
+          obtain ⟨ks, hks, rfl⟩ := hd
+          simpa [entryIssuesP] using hnz ks hks
+        rw [hany] at hi
+        simp at hi
 
 /- the hypotheses of `wellformed_ok` are satisfiable, and the conclusion is not vacuous:
    {"a": {"HED": {"x": "R", "y": "{b}"}}, "b": {"HED": "L/#"}, "c": {"Levels": 1}} -/
@@ -1047,5 +1062,319 @@ example : ∀ ne ∈ exampleCols, EntryOK quiet exampleCols ne.1 ne.2 := by
     have : screened (.obj [(['L'], .num 1)]) = [] := by decide
     rw [this] at hks
     cases hks
+
+
+/-! ## sidecars that declare definitions (`validateD`: the definition part computed by the model)
+
+`Defs` (property C09) supplies the acceptance of one definition group (`Defs.accept`, `C09.accept_iff`,
+`C09.Acceptable`); this section is about what the sidecar layer does with it: the order in which candidates are met,
+first-wins across entries and columns, the labelling of the issues, totality. -/
+
+/-- a candidate definition: a top-level group of an entry that holds a `Definition` tag, where it stands -/
+structure Cand where
+  col : Str
+  key : Option Str
+  dt : Defs.Tag
+  ks : List Defs.Node
+
+/-- the candidates of one entry, in order (`find_top_level_tags({"Definition"})`) -/
+def candsOfString (O : Oracle) (col : Str) (key : Option Str) (s : Str) : List Cand :=
+  (Defs.groupsOf (O.defTree s)).filterMap fun ks => (Defs.defTagOf ks).map fun dt => ⟨col, key, dt, ks⟩
+
+/-- the screened entries of the sidecar as `(column, get_hed_strings())`, column order -/
+def columnsP (src : List (Str × Json)) : List (Str × List (Str × Str)) :=
+  src.map fun ne => (ne.1, screened ne.2)
+
+/-- all candidates of the sidecar in the order `extract_definitions` meets them: column, key, position in the entry -/
+def candidates (O : Oracle) (src : List (Str × Json)) : List Cand :=
+  (columnsP src).flatMap fun c => c.2.flatMap fun ks => candsOfString O c.1 (keyCtx c.2 ks.1) ks.2
+
+/-- candidates through `Defs.accept`, one dictionary: the final dictionary and the labelled issues, in order -/
+def runCands (fold : Str → Str) : Defs.DefDict → List Cand → Defs.DefDict × List Issue
+  | dd, [] => (dd, [])
+  | dd, c :: cs =>
+    let r := Defs.accept fold dd c.dt c.ks
+    let t := runCands fold r.1 cs
+    (t.1, r.2.map (defLabel c.col c.key) ++ t.2)
+
+theorem runCands_append (fold : Str → Str) : ∀ (a b : List Cand) (dd : Defs.DefDict),
+    runCands fold dd (a ++ b) =
+      ((runCands fold (runCands fold dd a).1 b).1, (runCands fold dd a).2 ++ (runCands fold (runCands fold dd a).1 b).2)
+  | [], b, dd => by simp [runCands]
+  | c :: a, b, dd => by
+    simp only [List.cons_append, runCands, runCands_append fold a b, List.append_assoc]
+
+/-- `Defs.acceptString` on one entry = its candidates through `runCands` -/
+theorem acceptString_run (O : Oracle) (col : Str) (key : Option Str) (s : Str) (dd : Defs.DefDict) :
+    ((Defs.acceptString O.fold dd (O.defTree s)).1,
+     (Defs.acceptString O.fold dd (O.defTree s)).2.map (defLabel col key)) = runCands O.fold dd (candsOfString O col key s) := by
+  unfold Defs.acceptString candsOfString
+  generalize Defs.groupsOf (O.defTree s) = gs
+  suffices h : ∀ (acc : Defs.DefDict × List Defs.Issue),
+      ((gs.foldl (fun acc ks => match Defs.defTagOf ks with
+        | some dt => ((Defs.accept O.fold acc.1 dt ks).1, acc.2 ++ (Defs.accept O.fold acc.1 dt ks).2)
+        | none => acc) acc).1,
+       (gs.foldl (fun acc ks => match Defs.defTagOf ks with
+        | some dt => ((Defs.accept O.fold acc.1 dt ks).1, acc.2 ++ (Defs.accept O.fold acc.1 dt ks).2)
+        | none => acc) acc).2.map (defLabel col key)) =
+        ((runCands O.fold acc.1 (gs.filterMap fun ks => (Defs.defTagOf ks).map fun dt => (⟨col, key, dt, ks⟩ : Cand))).1,
+         acc.2.map (defLabel col key) ++
+          (runCands O.fold acc.1 (gs.filterMap fun ks => (Defs.defTagOf ks).map fun dt => (⟨col, key, dt, ks⟩ : Cand))).2)
+    from h (dd, [])
+  induction gs with
+  | nil => intro acc; simp [runCands]
+  | cons g gs ih =>
+    intro acc
+    cases hd : Defs.defTagOf g with
+    | none => simpa [List.foldl_cons, List.filterMap_cons, hd] using ih acc
+    | some dt =>
+      have := ih ((Defs.accept O.fold acc.1 dt g).1, acc.2 ++ (Defs.accept O.fold acc.1 dt g).2)
+      simp only [List.foldl_cons, List.filterMap_cons, hd, Option.map_some, runCands] at this ⊢
+      rw [this]
+      simp [List.append_assoc]
+
+/-- `extract_definitions` without the `Except` steps -/
+def extractP (O : Oracle) (src : List (Str × Json)) : Defs.DefDict × List Issue :=
+  (columnsP src).foldl (extractColumn O) ([], [])
+
+theorem extractDefs_eq (O : Oracle) (src : List (Str × Json)) :
+    extractDefs .fixed O (colsP src) = .ok (extractP O src) := by
+  unfold extractDefs extractP columnsP
+  rw [mapE_ok _ (fun c : Col => (c.name, stringsP c.entry c.ctype))]
+  · simp [colsP, List.map_map, Function.comp_def, screened]
+  · intro c hc
+    cases c
+    simp only [hedStrings_good _ _ _ (good_cols _ _ hc)]
+
+theorem extractDefsDoc_eq (O : Oracle) (doc : Json) :
+    extractDefsDoc .fixed O doc = .ok (extractP O (loadP doc).2) := by
+  simp only [extractDefsDoc, load_eq, columnData_eq, extractDefs_eq]
+
+/-- `validate(schema, extra_def_dicts)` with the definition part computed, without the `Except` steps -/
+def validateDP (O : Oracle) (ext : List Str) (doc : Json) : List Issue :=
+  validateP (withDefs O ((extractP O (loadP doc).2).2 ++ mergeIssues (extractP O (loadP doc).2).1 ext)) doc
+
+theorem validateD_eq (O : Oracle) (ext : List Str) (doc : Json) :
+    validateD .fixed O ext doc = .ok (validateDP O ext doc) := by
+  simp only [validateD, extractDefsDoc_eq, validate_eq, validateDP]
+
+/-- **Totality with declared definitions**: extraction of the sidecar's definitions, the merge with external dictionaries and
+the validation that uses them return a list of issues for every JSON value; no step raises. -/
+theorem sidecar_defs_total (O : Oracle) (ext : List Str) (doc : Json) :
+    (∃ dd dis, extractDefsDoc .fixed O doc = .ok (dd, dis)) ∧ ∃ issues, validateD .fixed O ext doc = .ok issues :=
+  ⟨⟨_, _, extractDefsDoc_eq O doc⟩, _, validateD_eq O ext doc⟩
+
+/-- extraction = all candidates of the sidecar, in order, through one dictionary -/
+theorem extractP_run (O : Oracle) (src : List (Str × Json)) : extractP O src = runCands O.fold [] (candidates O src) := by
+  unfold extractP candidates
+  suffices h : ∀ (cs : List (Str × List (Str × Str))) (acc : Defs.DefDict × List Issue),
+      cs.foldl (extractColumn O) acc =
+        ((runCands O.fold acc.1 (cs.flatMap fun c => c.2.flatMap fun ks => candsOfString O c.1 (keyCtx c.2 ks.1) ks.2)).1,
+         acc.2 ++ (runCands O.fold acc.1 (cs.flatMap fun c => c.2.flatMap fun ks => candsOfString O c.1 (keyCtx c.2 ks.1) ks.2)).2) by
+    simpa using h (columnsP src) ([], [])
+  have hcol : ∀ (col : Str) (all strs : List (Str × Str)) (acc : Defs.DefDict × List Issue),
+      strs.foldl (fun a ks => extractString O col (keyCtx all ks.1) a ks.2) acc =
+        ((runCands O.fold acc.1 (strs.flatMap fun ks => candsOfString O col (keyCtx all ks.1) ks.2)).1,
+         acc.2 ++ (runCands O.fold acc.1 (strs.flatMap fun ks => candsOfString O col (keyCtx all ks.1) ks.2)).2) := by
+    intro col all strs
+    induction strs with
+    | nil => intro acc; simp [runCands]
+    | cons ks strs ih =>
+      intro acc
+      have hs := acceptString_run O col (keyCtx all ks.1) ks.2 acc.1
+      have hs1 := congrArg Prod.fst hs
+      have hs2 := congrArg Prod.snd hs
+      simp only at hs1 hs2
+      rw [List.foldl_cons, ih]
+      simp only [extractString, hs1, hs2, List.flatMap_cons, runCands_append, List.append_assoc]
+  intro cs
+  induction cs with
+  | nil => intro acc; simp [runCands]
+  | cons c cs ih =>
+    intro acc
+    rw [List.foldl_cons, ih]
+    simp only [extractColumn, hcol, List.flatMap_cons, runCands_append, List.append_assoc]
+
+/-! ### the dictionary: accepted candidates, first occurrence per folded name -/
+
+/-- the conditions of C09 on one candidate, as a Boolean (`C09.acceptable_iff`) -/
+def okCand (c : Cand) : Bool := (C09.issues1 c.dt c.ks).isEmpty && (C09.issues2 c.dt c.ks).isEmpty
+
+theorem okCand_iff (c : Cand) : okCand c = true ↔ C09.Acceptable c.dt c.ks := by
+  rw [C09.acceptable_iff]
+  simp [okCand, C09.issues1, C09.issues2, List.isEmpty_iff]
+
+/-- folded name under which a candidate would be stored -/
+def candKey (fold : Str → Str) (c : Cand) : Str := fold (Defs.stripValue c.dt.extension).1
+
+/-- the acceptable candidates whose folded name has not been taken, in order; `seen` = names already taken -/
+def firstAccepted (fold : Str → Str) : List Str → List Cand → List Cand
+  | _, [] => []
+  | seen, c :: cs =>
+    if okCand c && !seen.contains (candKey fold c) then c :: firstAccepted fold (seen ++ [candKey fold c]) cs
+    else firstAccepted fold seen cs
+
+theorem lookup_isSome_iff (dd : Defs.DefDict) (k : Str) : (Defs.lookup dd k).isSome = (dd.map (·.key)).contains k := by
+  induction dd with
+  | nil => rfl
+  | cons e dd ih =>
+    simp only [Defs.lookup, List.find?_cons, List.map_cons, List.contains_cons] at ih ⊢
+    by_cases h : e.key = k
+    · simp [h]
+    · have h' : (e.key == k) = false := beq_eq_false_iff_ne.mpr h
+      have h'' : (k == e.key) = false := beq_eq_false_iff_ne.mpr (Ne.symm h)
+      simp only [h', h'', Bool.false_or]
+      exact ih
+
+/-- **The extracted dictionary** is exactly: for each candidate in column / key / position order that satisfies the C09
+conditions and whose folded name is new, the entry `C09.newEntry` (sorted fresh copy of its content under the folded name) —
+first occurrence wins, later ones leave it untouched. -/
+theorem runCands_dict (fold : Str → Str) : ∀ (cs : List Cand) (dd : Defs.DefDict),
+    (runCands fold dd cs).1 = dd ++ (firstAccepted fold (dd.map (·.key)) cs).map fun c => C09.newEntry fold c.dt c.ks
+  | [], dd => by simp [runCands, firstAccepted]
+  | c :: cs, dd => by
+    have ih := runCands_dict fold cs
+    simp only [runCands, firstAccepted]
+    rw [C09.accept_def]
+    by_cases h1 : (C09.issues1 c.dt c.ks).isEmpty = true
+    · by_cases h2 : (C09.issues2 c.dt c.ks).isEmpty = true
+      · by_cases h3 : (Defs.lookup dd (fold (Defs.stripValue c.dt.extension).1)).isSome = true
+        · have hcond : (okCand c && !(dd.map (·.key)).contains (candKey fold c)) = false := by
+            have : (dd.map (·.key)).contains (candKey fold c) = true := by rw [← lookup_isSome_iff]; exact h3
+            rw [this]; simp
+          rw [hcond]
+          simp only [h1, h2, h3, Bool.not_true, Bool.false_eq_true, ↓reduceIte, ih]
+        · have h3f : (Defs.lookup dd (fold (Defs.stripValue c.dt.extension).1)).isSome = false := by
+            cases hh : (Defs.lookup dd (fold (Defs.stripValue c.dt.extension).1)).isSome <;> simp_all
+          have hcond : (okCand c && !(dd.map (·.key)).contains (candKey fold c)) = true := by
+            have : (dd.map (·.key)).contains (candKey fold c) = false := by rw [← lookup_isSome_iff]; exact h3f
+            rw [this]; simp [okCand, h1, h2]
+          rw [hcond]
+          simp only [h1, h2, h3f, Bool.not_true, Bool.false_eq_true, ↓reduceIte, ih, List.map_append, List.map_cons,
+            List.map_nil, List.append_assoc, List.singleton_append]
+          rfl
+      · have hcond : (okCand c && !(dd.map (·.key)).contains (candKey fold c)) = false := by simp [okCand, h2]
+        rw [hcond]
+        simp only [h1, h2, Bool.not_true, Bool.false_eq_true, ↓reduceIte, ih]
+        simp
+    · have hcond : (okCand c && !(dd.map (·.key)).contains (candKey fold c)) = false := by simp [okCand, h1]
+      rw [hcond]
+      simp only [h1, Bool.false_eq_true, ↓reduceIte, ih]
+      simp
+
+theorem defs_extracted_spec (O : Oracle) (src : List (Str × Json)) :
+    (extractP O src).1 = (firstAccepted O.fold [] (candidates O src)).map fun c => C09.newEntry O.fold c.dt c.ks := by
+  rw [extractP_run, runCands_dict]; rfl
+
+/-! ### the issues: every rejected candidate is reported at its column / key -/
+
+/-- issues of the candidates, in order, given the dictionary before each -/
+theorem runCands_issues_mem (fold : Str → Str) : ∀ (pre : List Cand) (c : Cand) (post : List Cand) (dd : Defs.DefDict)
+    (di : Defs.Issue), di ∈ (Defs.accept fold (runCands fold dd pre).1 c.dt c.ks).2 →
+    defLabel c.col c.key di ∈ (runCands fold dd (pre ++ c :: post)).2 := by
+  intro pre c post dd di h
+  rw [runCands_append]
+  simp only [runCands, List.mem_append, List.mem_map]
+  exact Or.inr (Or.inl ⟨di, h, rfl⟩)
+
+/-- **Every rejected definition is reported**: a candidate that breaks a C09 condition, or whose folded name was already
+taken by an earlier accepted candidate of the sidecar, yields at least one `DEFINITION_INVALID` issue of error severity
+labelled with its column and (for a column with several entries) its key — and exactly the issues `Defs.accept` computes
+for it against the dictionary built from the candidates before it. -/
+theorem def_issue_in_extraction (O : Oracle) (src : List (Str × Json)) (pre post : List Cand) (c : Cand)
+    (hc : candidates O src = pre ++ c :: post)
+    (hrej : ¬ (C09.Acceptable c.dt c.ks ∧
+      Defs.lookup (runCands O.fold [] pre).1 (O.fold (Defs.stripValue c.dt.extension).1) = none)) :
+    (Defs.accept O.fold (runCands O.fold [] pre).1 c.dt c.ks).2 ≠ [] ∧
+    ∀ di ∈ (Defs.accept O.fold (runCands O.fold [] pre).1 c.dt c.ks).2,
+      defLabel c.col c.key di ∈ (extractP O src).2 ∧ (defLabel c.col c.key di).isError = true ∧
+      (defLabel c.col c.key di).code = ['D','E','F','I','N','I','T','I','O','N','_','I','N','V','A','L','I','D'] := by
+  refine ⟨((C09.accept_iff O.fold _ c.dt c.ks).2 hrej).2, fun di hdi => ⟨?_, mk_isError _ _ _, ?_⟩⟩
+  · rw [extractP_run, hc]
+    exact runCands_issues_mem O.fold pre c post [] di hdi
+  · cases di <;> rfl
+
+/-- the same, in the output of validation (no structural or reference error: the early exit is not taken) -/
+theorem def_issue_reported (O : Oracle) (ext : List Str) (cols : List (Str × Json)) (pre post : List Cand) (c : Cand)
+    (hne : anyError (earlyP (.obj cols)) = false) (hc : candidates O cols = pre ++ c :: post)
+    (hrej : ¬ (C09.Acceptable c.dt c.ks ∧
+      Defs.lookup (runCands O.fold [] pre).1 (O.fold (Defs.stripValue c.dt.extension).1) = none)) :
+    ∃ di, defLabel c.col c.key di ∈ validateDP O ext (.obj cols) ∧ (defLabel c.col c.key di).isError = true ∧
+      (defLabel c.col c.key di).code = ['D','E','F','I','N','I','T','I','O','N','_','I','N','V','A','L','I','D'] ∧
+      (defLabel c.col c.key di).col = some c.col ∧ (defLabel c.col c.key di).key = c.key := by
+  obtain ⟨hne', hall⟩ := def_issue_in_extraction O cols pre post c hc hrej
+  cases hl : (Defs.accept O.fold (runCands O.fold [] pre).1 c.dt c.ks).2 with
+  | nil => exact absurd hl hne'
+  | cons di rest =>
+    obtain ⟨hm, he, hcode⟩ := hall di (by rw [hl]; exact List.mem_cons_self ..)
+    refine ⟨di, ?_, he, hcode, rfl, rfl⟩
+    unfold validateDP validateP
+    rw [if_neg (by simp [hne])]
+    simp only [loadP, withDefs, List.mem_append]
+    exact Or.inl (Or.inr (Or.inl hm))
+
+/-- an external dictionary that defines a name the sidecar defines too: one more `duplicateDefinition`, without context -/
+theorem merge_duplicate_reported (O : Oracle) (ext : List Str) (cols : List (Str × Json)) (k : Str)
+    (hne : anyError (earlyP (.obj cols)) = false) (hk : k ∈ ext)
+    (hd : (Defs.lookup (extractP O cols).1 k).isSome = true) :
+    mk (.defn .duplicateDefinition) none none ∈ validateDP O ext (.obj cols) := by
+  unfold validateDP validateP
+  rw [if_neg (by simp [hne])]
+  simp only [loadP, withDefs, List.mem_append]
+  refine Or.inl (Or.inr (Or.inr ?_))
+  exact List.mem_map.mpr ⟨k, List.mem_filter.mpr ⟨hk, hd⟩, rfl⟩
+
+/-- candidates that are all acceptable and new produce no issue -/
+theorem runCands_issues_nil (fold : Str → Str) : ∀ (cs : List Cand) (dd : Defs.DefDict),
+    (∀ pre c post, cs = pre ++ c :: post → C09.Acceptable c.dt c.ks ∧
+      Defs.lookup (runCands fold dd pre).1 (fold (Defs.stripValue c.dt.extension).1) = none) →
+    (runCands fold dd cs).2 = []
+  | [], _, _ => rfl
+  | c :: cs, dd, h => by
+    have h0 := h [] c cs rfl
+    have hacc := (C09.accept_iff fold dd c.dt c.ks).1 h0
+    simp only [runCands, hacc, List.map_nil, List.nil_append]
+    apply runCands_issues_nil fold cs
+    intro pre c' post hsplit
+    have := h (c :: pre) c' post (by rw [hsplit]; rfl)
+    simpa [runCands, hacc] using this
+
+/-- **Well-formed sidecars that declare definitions**: if every column obeys the structural rules (the `#` rule not applying
+to entries that declare definitions; a column declares definitions in all its entries or in none), every declared definition
+satisfies the C09 conditions under a name not used before in the sidecar nor by the external dictionaries, and the string
+layer finds no error, then validation — with the definitions extracted by the model — reports no error-severity issue. -/
+theorem wellformed_defs_ok (O : Oracle) (ext : List Str) (cols : List (Str × Json))
+    (hwf : ∀ ne ∈ cols, EntryOK (withDefs O []) cols ne.1 ne.2) (hO : OracleOK (withDefs O []) cols)
+    (hcand : ∀ pre c post, candidates O cols = pre ++ c :: post → C09.Acceptable c.dt c.ks ∧
+      Defs.lookup (runCands O.fold [] pre).1 (O.fold (Defs.stripValue c.dt.extension).1) = none)
+    (hext : ∀ k ∈ ext, (Defs.lookup (extractP O cols).1 k).isSome = false) :
+    ∀ i ∈ validateDP O ext (.obj cols), i.isError = false := by
+  have h1 : (extractP O cols).2 = [] := by rw [extractP_run]; exact runCands_issues_nil O.fold _ [] hcand
+  have h2 : mergeIssues (extractP O cols).1 ext = [] := by
+    simp only [mergeIssues, List.map_eq_nil_iff, List.filter_eq_nil_iff]
+    intro k hk
+    simp [hext k hk]
+  unfold validateDP
+  simp only [loadP, h1, h2, List.append_nil]
+  exact wellformed_ok (withDefs O []) cols hwf hO
+
+/- a concrete sidecar `{"d": {"HED": {"x": "A", "y": "B"}}, "v": {"HED": "L/#"}}` whose entries `A` and `B` both parse to
+   `(Definition/X, (R))`: the second is a duplicate, reported at `d` / `y`; the dictionary keeps one entry; an external
+   dictionary defining `x` too adds the context-free duplicate -/
+def defTreeX : List Defs.Node := [.grp [.tag { base := .definition, ext := ['/', 'X'] }, .grp [.tag { name := ['R'] }]]]
+def quietDefs : Oracle :=
+  { quiet with defTree := fun s => if s == ['A'] || s == ['B'] then defTreeX else [], fold := fun s => s.map Char.toLower }
+def defsDoc : Json :=
+  .obj [(['d'], .obj [(HED, .obj [(['x'], .str ['A']), (['y'], .str ['B'])])]), (['v'], .obj [(HED, .str ['L', '/', '#'])])]
+
+example : validateD .fixed quietDefs [] defsDoc = .ok [defLabel ['d'] (some ['y']) .duplicateDefinition] := by decide
+example : validateD .fixed quietDefs [['x']] defsDoc
+    = .ok [defLabel ['d'] (some ['y']) .duplicateDefinition, mk (.defn .duplicateDefinition) none none] := by decide
+example : ((extractP quietDefs (loadP defsDoc).2).1.map (·.key)) = [['x']] := by decide
+example : (candidates quietDefs (loadP defsDoc).2).length = 2 := by decide
+
+/- a well-formed sidecar that declares a definition: no issue, one dictionary entry -/
+example : validateD .fixed quietDefs [['e']]
+    (.obj [(['d'], .obj [(HED, .obj [(['x'], .str ['A'])])]), (['v'], .obj [(HED, .str ['L', '/', '#'])])]) = .ok [] := by decide
 
 end HedVerif.C08
